@@ -307,6 +307,17 @@ def general_models(tier):
             for form in (("bolus", "rate") if tier == "quick" else ("bolus", "rate", "r", "d")):
                 for scale in (False, True):
                     out.append(_general_model(advan, comps, rates, form, scale, des=False))
+    # default dose compartment given by DEFDOSE alone: on the observation compartment although a DEPOT exists, on a peripheral
+    # compartment, and with compartment names that follow no convention
+    odd = [
+        (graphs[1], "CENTRAL", None), (graphs[3], "CENTRAL", None), (graphs[2], "PERI", None), (graphs[4], "TRANS1", None),
+        (graphs[1], "CENTRAL", {"DEPOT": "GUT", "CENTRAL": "BLOOD"}), (graphs[1], None, {"DEPOT": "GUT", "CENTRAL": "BLOOD"}),
+        (graphs[2], "PERI", {"CENTRAL": "BLOOD", "PERI": "TISSUE"}),
+    ]
+    for advan, des in ((5, False), (13, True)):
+        for (comps, rates), dose_at, names in odd:
+            for form in ("bolus", "rate"):
+                out.append(_general_model(advan, comps, rates, form, True, des=des, dose_at=dose_at, names=names))
     # $DES models (ADVAN6 / ADVAN13)
     for advan in ((6, 13) if tier == "thorough" else (13,)):
         for comps, rates in graphs[:7]:
@@ -322,10 +333,13 @@ def general_models(tier):
     return out
 
 
-def _general_model(advan, comps, rates, form, scale, des, des_lines=None, extra=None):
+def _general_model(advan, comps, rates, form, scale, des, des_lines=None, extra=None, dose_at=None, names=None):
     n = len(comps)
     dose = (comps.index("DEPOT") + 1) if "DEPOT" in comps else 1
     obs = comps.index("CENTRAL") + 1
+    if dose_at is not None:  # the default dose compartment is named by its attribute only (no name / position convention)
+        dose = comps.index(dose_at) + 1
+    shown = [(names or {}).get(c, c) for c in comps]
     params = list(extra or []) + [(k, v) for k, v in rates.items()]
     if scale:
         params.append((f"S{obs}", 0.5))
@@ -340,7 +354,7 @@ def _general_model(advan, comps, rates, form, scale, des, des_lines=None, extra=
         thetas.append(val)
     model_rec = "$MODEL " + " ".join(
         "COMPARTMENT=(" + c + (" DEFDOSE" if i + 1 == dose else "") + (" DEFOBSERVATION" if i + 1 == obs else "") + ")"
-        for i, c in enumerate(comps))
+        for i, c in enumerate(shown))
     des_rec = ""
     if des:
         if des_lines is None:
@@ -363,7 +377,8 @@ def _general_model(advan, comps, rates, form, scale, des, des_lines=None, extra=
         + "$ERROR\nIPRED = F\nY = IPRED + IPRED*EPS(1) + EPS(2)\n" + "".join(f"$THETA {v}\n" for v in thetas)
         + "$OMEGA 0.1\n$OMEGA 0.2\n$SIGMA 0.01\n$SIGMA 0.5\n$ESTIMATION METHOD=1 INTER\n"
     )
-    return {"name": f"ADVAN{advan} {'-'.join(comps)} rates={sorted(rates)} dose={form} scale={scale}" + (" custom-des" if extra else ""),
+    return {"name": f"ADVAN{advan} {'-'.join(shown)} rates={sorted(rates)} dose={form} scale={scale}" + (" custom-des" if extra else "")
+                    + (f" dose-into-{(names or {}).get(dose_at, dose_at)}" if dose_at else ""),
             "code": code, "data": data, "cols": cols, "ntheta": len(thetas), "advan": advan, "trans": 1}
 
 
